@@ -24,6 +24,8 @@ from typing import TYPE_CHECKING, List, Optional, Set, Tuple, Union, cast
 
 from .._cache import DNSCache, _UniqueRecordsType
 from .._dns import DNSAddress, DNSPointer, DNSQuestion, DNSRecord, DNSRRSet
+from .._exceptions import NamePartTooLongException
+from .._logger import log
 from .._protocol.incoming import DNSIncoming
 from .._services.info import ServiceInfo
 from .._transport import _WrappedTransport
@@ -425,7 +427,14 @@ class QueryHandler:
             # When sending unicast, only send back the reply
             # via the same socket that it was recieved from
             # as we know its reachable from that socket
-            self.zc.async_send(out, addr, port, v6_flow_scope, transport)
+            try:
+                self.zc.async_send(out, addr, port, v6_flow_scope, transport)
+            except NamePartTooLongException:
+                # A legacy unicast reply echoes the questions of the query. A question
+                # name that decoded (invalid UTF-8 is replaced on decoding, which makes
+                # labels longer) may not be encodable again; such a query gets no unicast
+                # reply instead of an exception in the datagram handler.
+                log.debug("Unable to echo the questions of the query from %s:%s in a unicast reply", addr, port)
         if question_answers.mcast_now:
             self.zc.async_send(construct_outgoing_multicast_answers(question_answers.mcast_now))
         if question_answers.mcast_aggregate:
